@@ -378,8 +378,76 @@ def rule_b(ctx):
             return (D.has_call(a, 'StreamsState::write_limit') and D.has_const(b, 0)) or (D.has_call(b, 'StreamsState::write_limit') and D.has_const(a, 0))
         # write_limit() is unsigned: `limit <= 0` (written `!(limit > 0)` / `!(0 < limit)`) is the same predicate as `limit == 0`
         return op == 'Le' and unsigned and D.has_call(a, 'StreamsState::write_limit') and _is_int(b, 0)
-    guard_error(ctx, 'b', 'zero_write_limit_blocks', ws, zero_limit,
-                variant=('WriteError', 'Blocked'), protect=[c.bb for c in cs], what='write_limit() == 0')
+    # Without connection credit nothing is handed to Send::write and nothing is accepted: every path from the `limit == 0`
+    # edge refuses the write -- with Blocked, or, for the stream that would have been written (the receiver of Send::write),
+    # with the reason no credit can cure: ClosedStream only on the not-writable edge of a branch on is_writable(), Stopped
+    # only with the stream's own stop_reason payload on the Some edge of a branch on it.
+    streams = [arg_desc(F, c, 0) for c in cs]
+    terminal, rejected = _terminal_refusals(ctx, ws, streams)
+    _guard_refuses(ctx, 'b', 'zero_write_limit_blocks', ws, zero_limit, effect_blocks(ctx, ws, variant=('WriteError', 'Blocked')) | terminal,
+                   protect=[c.bb for c in cs], what='write_limit() == 0', effect="WriteError::Blocked (or the written stream's own ClosedStream / Stopped state)",
+                   note=rejected)
+
+
+def _terminal_refusals(ctx, body, streams):
+    """blocks of `body` that build a WriteError describing a terminal state of one of `streams` (value descriptors of
+    `&mut Send`), on an edge where that state is established:
+      * WriteError::ClosedStream in a block dominated by a branch on `Send::is_writable(<stream>)` and unreachable from the
+        edge on which the stream IS writable;
+      * WriteError::Stopped(c) where c IS `(<stream>.stop_reason as Some).0`, in a block dominated by a branch on the
+        discriminant of that same `<stream>.stop_reason` and unreachable from every edge but Some.
+    Returns (qualifying blocks, text describing the ClosedStream / Stopped constructions that do not qualify)."""
+    F = ctx.facts
+    d = describer(F, body)
+    brs = branches(F, body)
+    live = body.live_blocks()
+    good, bad = set(), []
+    for i, j, pl, rv, line in body.assigns():
+        if i not in live or not (rv[0] == 'agg' and rv[1][0] == 'adt' and path_matches(rv[1][1], 'WriteError')):
+            continue
+        ok = False
+        if rv[1][2] == 'ClosedStream':
+            for br in brs:
+                inner, neg = peel_not(br.desc)
+                if not (_is_call_to(inner, 'Send::is_writable') and len(inner[3]) == 1 and inner[3][0] in streams):
+                    continue
+                writable = br.target(0 if neg else 1)
+                if body.dominates(br.bb, i) and i not in body.reachable_from(writable, avoid=[br.bb]):
+                    ok = True
+        elif rv[1][2] == 'Stopped' and len(rv[2]) == 1:
+            v = d.operand(rv[2][0], i, j)
+            for S in streams:
+                X = ('field', S, 'stop_reason')
+                if v != ('field', ('variant', X, 'Some'), '0'):
+                    continue
+                for br in brs:
+                    if br.desc == ('discr', X) and body.dominates(br.bb, i) \
+                            and not any(i in body.reachable_from(t, avoid=[br.bb]) for t in br.other_targets(STD_VARIANTS['Option']['Some'])):
+                        ok = True
+        else:
+            continue
+        if ok:
+            good.add(i)
+        else:
+            bad.append('%s at %s:%d' % (rv[1][2], body.file, line))
+    return good, ('; not a refusal for the written stream\'s own terminal state: ' + ', '.join(bad)) if bad else ''
+
+
+def _guard_refuses(ctx, rule, instance, body, relpred, eff, protect=(), what='', effect='', note='', floor=1):
+    """guard_error with the effect given as a set of blocks: on every edge where the violating relation holds, every path
+    reaches one of `eff` before any protected block and before a normal return."""
+    import engine.rulelib as RL
+    edges = guard_edges(ctx, body, relpred)
+    for br, truth, tgt in edges:
+        goals = set(body.return_blocks()) | set(protect)
+        p = path_avoiding(body, [tgt], goals, eff) if eff else [tgt]
+        if p is None:
+            ctx.ok(rule, instance, body, br.where(), '%s: violating edge always reaches %s' % (what, effect))
+        else:
+            ctx.bad(rule, instance, body, br.where(), '%s: on the violating edge a path avoids %s: %s%s' % (what, effect, fmt_path(body, p), note))
+    if len(edges) < floor:
+        ctx.bad(rule, instance + '/guard_missing', body, body.where(), '%s: no branch with the required relation found (guard removed or relation changed)' % what + RL._offset_note(body))
+    return edges
 
 
 def _capped(d):
